@@ -85,6 +85,7 @@ type loopInfo struct {
 	ghosts    map[string]bool
 	allocates bool
 	spec      *LoopSpec
+	headHeld  map[string]string
 }
 
 type abstraction struct {
@@ -136,6 +137,8 @@ type Gen struct {
 	localNames map[string][]*ssa.Alloc
 	calleeUse map[*CalleeSpec]int
 	assertUse map[*Clause]int
+	specFacts []string
+	inQuant   int
 	incoming map[*ssa.BasicBlock][]edge
 }
 
@@ -517,9 +520,15 @@ func (g *Gen) execAll() {
 		}
 		g.entry = st.clone()
 		ctx := &specCtx{g: g, st: st, old: g.entry, entryNames: true}
+		for _, e := range g.spec.Releases {
+			st.held[g.heldKeyOfExpr(ctx, e)] = "true"
+		}
 		for _, c := range g.spec.Requires {
 			g.curPos = token.NoPos
-			g.assume(st, g.evalBool(ctx, c.E))
+			for _, h := range heldConjuncts(c.E) {
+				st.held[g.heldKeyOfExpr(ctx, h)] = "true"
+			}
+			g.assume(st, g.evalAssume(ctx, c.E))
 		}
 		// frame
 		g.frameOn = false
@@ -1002,7 +1011,7 @@ func (g *Gen) checkInvariants(li *loopInfo, e edge, kind string) {
 	g.curPos = g.loopPos(li)
 	for _, c := range li.spec.Invariants {
 		ctx := &specCtx{g: g, st: st, old: g.entry}
-		goal := g.evalBool(ctx, c.E)
+		goal := g.evalGoal(ctx, c.E)
 		g.oblige(st, kind, c.ID+":"+kind, fmt.Sprintf("loop %d invariant %s (%s)", li.ordinal, c.Src, kind), goal)
 	}
 	g.curPos = save
@@ -1019,6 +1028,10 @@ func (g *Gen) loopPos(li *loopInfo) token.Pos {
 
 func (g *Gen) havocLoop(li *loopInfo, base *State) *State {
 	st := base
+	li.headHeld = map[string]string{}
+	for k, v := range st.held {
+		li.headHeld[k] = v
+	}
 	if g.discovery {
 		// havoc everything
 		st.heap = map[string]string{}
@@ -1114,7 +1127,7 @@ func (g *Gen) havocLoop(li *loopInfo, base *State) *State {
 		g.curPos = g.loopPos(li)
 		for _, c := range li.spec.Invariants {
 			ctx := &specCtx{g: g, st: st, old: g.entry}
-			g.assume(st, g.evalBool(ctx, c.E))
+			g.assume(st, g.evalAssume(ctx, c.E))
 		}
 		g.curPos = save
 	}
@@ -1179,7 +1192,34 @@ func (g *Gen) addEdge(from, to *ssa.BasicBlock, st *State, cond string) {
 	if li := g.loops[to]; li != nil && to.Dominates(from) {
 		// back edge: invariant preserved
 		g.checkInvariants(li, edge{from, st, cond}, "invariant-preserved")
+		if !g.discovery {
+			s2 := st.clone()
+			s2.pc = cond
+			for k, hv := range li.headHeld {
+				g.oblige(s2, "lock", "loop lock-state", "lock state at the end of the loop body equals the state at the loop head", eq(g.heldTerm(st, k), hv))
+			}
+			for k := range st.held {
+				if _, ok := li.headHeld[k]; !ok {
+					g.oblige(s2, "lock", "loop lock-state", "lock state at the end of the loop body equals the state at the loop head", eq(g.heldTerm(st, k), "false"))
+				}
+			}
+		}
 		return
 	}
 	g.incoming[to] = append(g.incoming[to], edge{from, st, cond})
+}
+
+// heldConjuncts returns the arguments of top-level held(...) conjuncts of a precondition.
+func heldConjuncts(e Expr) []Expr {
+	switch x := e.(type) {
+	case *EBin:
+		if x.Op == "&&" {
+			return append(heldConjuncts(x.L), heldConjuncts(x.R)...)
+		}
+	case *ECall:
+		if x.Fn == "held" && len(x.Args) == 1 {
+			return []Expr{x.Args[0]}
+		}
+	}
+	return nil
 }
